@@ -188,9 +188,8 @@ fn calls_text(calls: &[CallRec]) -> String {
 
 struct Plain {
     bytes: Vec<u8>,
+    /// number of sink `write` + `flush` calls of the fault-free run (incl. those issued from Drop)
     n: u64,
-    /// sink call counter when the last explicit call returned (calls after it come from Drop)
-    explicit_end: u64,
 }
 
 #[derive(Default)]
@@ -411,7 +410,7 @@ fn main() {
                 s.name.to_string(),
                 json!({"sink_calls": n, "explicit_calls": out.calls.len(), "sink_calls_from_drop": out.sink_calls - explicit_end, "bytes": out.bytes.len()}),
             );
-            plains.push(Plain { bytes: out.bytes, n, explicit_end });
+            plains.push(Plain { bytes: out.bytes, n });
         }
         ctx.extra("scenarios", json!(n_table));
 
@@ -455,7 +454,6 @@ fn main() {
                 let c = &cases[i as usize];
                 let s = &SCENARIOS[c.scn];
                 let out = run_case(s, c.mode, c.sticky, c.disc);
-                let _ = plains[c.scn].explicit_end;
                 judge(c, &plains[c.scn], &out, &stats, &distinct)
             },
         );
